@@ -187,6 +187,26 @@ example : ∃ S r1, newSolver 3 = .ok S ∧ S.solve (st 3) = .ok r1 ∧ SolverIn
   exact ⟨S, r1, hS, h1, hI, hk, exNonsymmetric hS,
     ns_solve_idempotent_nonsymmetric (by decide) (st 3) h1 hI hk (exNonsymmetric hS)⟩
 
+/-- `ns_update_forgets` applies to the object `new` builds (`Upd` is reflexive; by
+`ns_solve_leaves_updatable_object` it relates the object before and after any `solve()`) -/
+example {S : SolverNS.Solver Int} (h : newSolver 3 = .ok S) :
+    RelM (fun r r' => r.1 = r'.1 ∧ QB r.2 r'.2)
+      (kktSolverUpdate S.st.kktsystem.kktsolver S.st.cones (st 3).lin)
+      (kktSolverUpdate S.st.kktsystem.kktsolver S.st.cones (st 3).lin) :=
+  have hk := ns_new_solver_kkt_well_formed exInputOKN (by decide) exPermForN h
+  ns_update_forgets (Solver.Upd.rfl' _ _) hk.inv.ldl _ hk.fit
+
+/-- the hypotheses of `ns_solve_leaves_updatable_object` hold on the example run, and so does its
+conclusion: after the solve the exponential cone's object still is an exponential cone, the
+linear-solver object differs only in what the next `update` rewrites -/
+example : ∃ S r, newSolver 3 = .ok S ∧ S.solve (st 3) = .ok r ∧ SolverNS.ConesFull S.st.cones ∧ SolverNS.KktOk S.st
+    ∧ Upd (st 3).lin S.st.kktsystem.kktsolver r.S.st.kktsystem.kktsolver
+    ∧ SolverNS.ConesShape S.st.cones r.S.st.cones := by
+  obtain ⟨S, r1, hS, hI, h1, _⟩ := exSolve_inv
+  have hk := ns_new_solver_kkt_well_formed exInputOKN (by decide) exPermForN hS
+  obtain ⟨hU, _, hsh, _⟩ := ns_solve_leaves_updatable_object h1 hI.st.shapes.cones hk
+  exact ⟨S, r1, hS, h1, hI.st.shapes.cones, hk, hU, hsh⟩
+
 end nsstaleExamples
 
 end Clarabel.C05
